@@ -130,15 +130,30 @@ package getoptions
 //@ spec func Parsing() bool = completionMode == "" && I0() < len(args)
 //@ spec func Positional() bool = Parsing() && Tok() != "--" && !LooksLikeOption(Tok())
 // Nothing about any option record or any receiver variable changed during this iteration.
-//@ spec func OptsSameIter() bool = (forall o *option.Option :: o.Called == old_iter(o.Called) && o.UsedAlias == old_iter(o.UsedAlias))
-//@     && (forall r *bool :: *r == old_iter(*r)) && (forall r *string :: *r == old_iter(*r))
-//@     && (forall r *int :: *r == old_iter(*r)) && (forall r *float64 :: *r == old_iter(*r))
-//@     && (forall r *[]string :: r != &args ==> eqseq(*r, old_iter(*r)))
-//@     && (forall r *[]int :: eqseq(*r, old_iter(*r))) && (forall r *[]float64 :: eqseq(*r, old_iter(*r)))
-//@     && (forall m map[string]string :: (forall k string :: (k in m) == old_iter(k in m) && m[k] == old_iter(m[k])))
+//@ spec func OptsSameIter() bool = (forall o *option.Option :: allocated(o) ==> o.Called == old_iter(o.Called) && o.UsedAlias == old_iter(o.UsedAlias))
+//@     && (forall r *bool :: allocated(r) ==> *r == old_iter(*r)) && (forall r *string :: allocated(r) ==> *r == old_iter(*r))
+//@     && (forall r *int :: allocated(r) ==> *r == old_iter(*r)) && (forall r *float64 :: allocated(r) ==> *r == old_iter(*r))
+//@     && (forall r *[]string :: allocated(r) ==> identical(*r, old_iter(*r)))
+//@     && (forall r *[]int :: allocated(r) ==> identical(*r, old_iter(*r))) && (forall r *[]float64 :: allocated(r) ==> identical(*r, old_iter(*r)))
+//@     && (forall m map[string]string :: allocated(m) ==> (forall k string :: (k in m) == old_iter(k in m) && m[k] == old_iter(m[k])))
 // Text and unknown-option lists of every node other than n are as at the head of the iteration.
-//@ spec func OthersSameIter(n *programTree) bool = forall m *programTree :: m != n ==> eqseq(m.ChildText, old_iter(m.ChildText)) && eqseq(m.UnknownOptions, old_iter(m.UnknownOptions))
-//@ spec func UnkSameIter(n *programTree) bool = eqseq(n.UnknownOptions, old_iter(n.UnknownOptions))
+//@ spec func OthersSameIter(n *programTree) bool = forall m *programTree :: allocated(m) && m != n ==> identical(m.ChildText, old_iter(m.ChildText)) && identical(m.UnknownOptions, old_iter(m.UnknownOptions))
+//@ spec func UnkSameIter(n *programTree) bool = identical(n.UnknownOptions, old_iter(n.UnknownOptions))
+
+// Resolution of an option name at a node (C05): exact table key wins, otherwise the unique key it is a prefix of.
+//@ spec func Unresolved(n *programTree, e string) bool = !(e in n.ChildOptions) && (forall k string :: (k in n.ChildOptions) ==> !hasprefix(k, e))
+//@ spec func Ambiguous(n *programTree, e string) bool = !(e in n.ChildOptions)
+//@     && (exists k1 string, k2 string :: k1 != k2 && (k1 in n.ChildOptions) && (k2 in n.ChildOptions) && hasprefix(k1, e) && hasprefix(k2, e))
+//@ spec func Resolves(n *programTree, e string, k string) bool = (k in n.ChildOptions) && ((e in n.ChildOptions) ==> k == e)
+//@     && (!(e in n.ChildOptions) ==> hasprefix(k, e) && (forall k2 string :: (k2 in n.ChildOptions) && hasprefix(k2, e) ==> k2 == k))
+// Every option record other than c, and every receiver variable other than c's, is as at the head of the iteration.
+//@ spec func OptsSameIterExcept(c *option.Option) bool = (forall o *option.Option :: allocated(o) && o != c ==> o.Called == old_iter(o.Called) && o.UsedAlias == old_iter(o.UsedAlias))
+//@     && (forall r *bool :: allocated(r) && r != c.pBool ==> *r == old_iter(*r)) && (forall r *string :: allocated(r) && r != c.pString ==> *r == old_iter(*r))
+//@     && (forall r *int :: allocated(r) && r != c.pInt ==> *r == old_iter(*r)) && (forall r *float64 :: allocated(r) && r != c.pFloat64 ==> *r == old_iter(*r))
+//@     && (forall r *[]string :: allocated(r) && r != c.pStringS ==> identical(*r, old_iter(*r)))
+//@     && (forall r *[]int :: allocated(r) && r != c.pIntS ==> identical(*r, old_iter(*r))) && (forall r *[]float64 :: allocated(r) && r != c.pFloat64S ==> identical(*r, old_iter(*r)))
+//@     && (forall m map[string]string :: allocated(m) && m != MapOf(c) ==> (forall k string :: (k in m) == old_iter(k in m) && m[k] == old_iter(m[k])))
+//@ spec func PassOrWarn(n *programTree) bool = n.unknownMode == Pass || n.unknownMode == Warn
 
 //@ func parseCLIArgs
 //@   props C19
@@ -166,6 +181,10 @@ package getoptions
 //@     step cmd.carry {C03,C08}: forall c *programTree :: Positional() && (Tok() in N0().ChildCommands) && c == currentProgramNode ==>
 //@       isconcat(c.ChildText, old_iter(c.ChildText), old_iter(N0().ChildText))
 //@       && isconcat(c.UnknownOptions, old_iter(c.UnknownOptions), old_iter(N0().UnknownOptions))
+//@     step opt.once {C03}: Parsing() && LooksLikeOption(Tok()) && !$exit ==> currentProgramNode == N0() && OthersSameIter(N0())
+//@       && (eqseq(N0().ChildText, old_iter(N0().ChildText)) || isappend1(N0().ChildText, old_iter(N0().ChildText), Tok()))
+//@     step opt.kept {C08,C03}: Parsing() && LooksLikeOption(Tok()) && !$exit && len(N0().UnknownOptions) > old_iter(len(N0().UnknownOptions)) && PassOrWarn(N0())
+//@       ==> isappend1(N0().ChildText, old_iter(N0().ChildText), Tok())
 //@   loop "for k, v := range currentProgramNode.ChildOptions"
 //@     invariant comp.lastopt: (exists i int :: 0 <= i && i < len(completions) && completions[i] != "-") ==> lastOpt != nil
 //@   loop "for _, e := range lastOpt.SuggestedValues"@2
@@ -175,6 +194,27 @@ package getoptions
 //@       cell(bool), cell(string), cell(int), cell(float64), cell([]string), cell([]int), cell([]float64), allmaps(map[string]string)
 //@     invariant pairs.idx: 0 <= iterator.idx && iterator.idx < len(args) && old_loop(iterator.idx) <= iterator.idx
 //@     invariant pairs.args: eqseq(args, old(args))
+//@     invariant pairs.token: token == args[old_loop(iterator.idx)]
+//@     invariant pairs.once {C03}: (!tokenPassed ==> identical(currentProgramNode.ChildText, old_loop(currentProgramNode.ChildText)))
+//@       && (tokenPassed ==> isappend1(currentProgramNode.ChildText, old_loop(currentProgramNode.ChildText), args[old_loop(iterator.idx)]))
+//@     invariant pairs.kept {C08,C03}: len(currentProgramNode.UnknownOptions) > old_loop(len(currentProgramNode.UnknownOptions)) && PassOrWarn(currentProgramNode)
+//@       ==> isappend1(currentProgramNode.ChildText, old_loop(currentProgramNode.ChildText), args[old_loop(iterator.idx)])
+//@     invariant pairs.unk: len(currentProgramNode.UnknownOptions) >= old_loop(len(currentProgramNode.UnknownOptions))
+//@     invariant pairs.others: forall m *programTree :: allocated(m) && m != currentProgramNode ==> identical(m.ChildText, old_loop(m.ChildText)) && identical(m.UnknownOptions, old_loop(m.UnknownOptions))
+//@     step pair.unknown.stop {C09,C03}: Unresolved(currentProgramNode, p.Option) && currentProgramNode.requireOrder ==> $exit && !$returned
+//@       && isconcat_tail(currentProgramNode.ChildText, old_iter(currentProgramNode.ChildText), args, old_iter(iterator.idx))
+//@       && UnkSameIter(currentProgramNode) && OptsSameIter()
+//@     step pair.unknown.rec {C08}: Unresolved(currentProgramNode, p.Option) && !currentProgramNode.requireOrder ==> !$exit
+//@       && len(currentProgramNode.UnknownOptions) == old_iter(len(currentProgramNode.UnknownOptions)) + 1
+//@       && currentProgramNode.UnknownOptions[old_iter(len(currentProgramNode.UnknownOptions))].Name == p.Option
+//@       && (forall q int :: 0 <= q && q < old_iter(len(currentProgramNode.UnknownOptions)) ==> currentProgramNode.UnknownOptions[q] == old_iter(currentProgramNode.UnknownOptions[q]))
+//@       && OptsSameIter() && iterator.idx == old_iter(iterator.idx)
+//@     step pair.ambiguous {C05,C20}: Ambiguous(currentProgramNode, p.Option) ==> $returned && result2 != nil && OptsSameIter()
+//@       && eqseq(currentProgramNode.ChildText, old_iter(currentProgramNode.ChildText)) && UnkSameIter(currentProgramNode)
+//@     step pair.resolved.called {C05,C06}: forall k string :: Resolves(currentProgramNode, p.Option, k) && !$returned
+//@       ==> currentProgramNode.ChildOptions[k].Called && currentProgramNode.ChildOptions[k].UsedAlias == k
+//@     step pair.resolved.frame {C05,C06}: forall k string :: Resolves(currentProgramNode, p.Option, k)
+//@       ==> OptsSameIterExcept(currentProgramNode.ChildOptions[k]) && eqseq(currentProgramNode.ChildText, old_iter(currentProgramNode.ChildText)) && UnkSameIter(currentProgramNode)
 //@   loop "for ; i < cOpt.MinArgs; i++"
 //@     modifies iterator.idx, *cOpt.pBool, *cOpt.pString, *cOpt.pInt, *cOpt.pFloat64, *cOpt.pStringS, *cOpt.pIntS, *cOpt.pFloat64S, mapof(MapOf(cOpt))
 //@     invariant min.idx: 0 <= iterator.idx && iterator.idx < len(args) && old_loop(iterator.idx) <= iterator.idx
